@@ -426,10 +426,13 @@ class MsgpackSerializer(SerializerBase):
         return msgpack.packb(data, use_bin_type=True, default=self.default)
 
     def loadsCall(self, data):
-        return msgpack.unpackb(self._convertToBytes(data), raw=False, object_hook=self.object_hook)
+        obj, method, vargs, kwargs = msgpack.unpackb(self._convertToBytes(data), raw=False, ext_hook=self.ext_hook)
+        vargs = self.recreate_classes(vargs)
+        kwargs = self.recreate_classes(kwargs)
+        return obj, method, vargs, kwargs
 
     def loads(self, data):
-        return msgpack.unpackb(self._convertToBytes(data), raw=False, object_hook=self.object_hook, ext_hook=self.ext_hook)
+        return self.recreate_classes(msgpack.unpackb(self._convertToBytes(data), raw=False, ext_hook=self.ext_hook))
 
     def default(self, obj):
         replacer = self.__type_replacements.get(type(obj), None)
@@ -458,11 +461,6 @@ class MsgpackSerializer(SerializerBase):
                 return obj.tounicode()
             return obj.tolist()
         return self.class_to_dict(obj)
-
-    def object_hook(self, obj):
-        if "__class__" in obj:
-            return self.dict_to_class(obj)
-        return obj
 
     def ext_hook(self, code, data):
         if code == 0x30:
